@@ -162,6 +162,9 @@ func vEqString(a, b string) bool  { return a == b }
 func vProvable(c bool) bool       { return c }
 func vRetype(v, proto any) any    { return nil }
 func vWatchAll(p any, prefix string) {}
+func vWatchGlobals(prefix string)     {}
+func vPoolStrict()                    {}
+func vTraceRaceLabel(label string)    {}
 // vFreeze / vCheckFrozen natively: a deep snapshot of the exported content
 // reachable from each value, compared again by vCheckFrozen.
 type vFrozenRec struct {
